@@ -106,3 +106,20 @@ Qed.
 Example quiet_somewhere :
   quiet_all (run_script (mkdenv [] [] [] []) false 65536 [Idle; Idle]) = true.
 Proof. vm_compute. reflexivity. Qed.
+
+(* non-vacuity in an established association: the request has been indicated, the local user has accepted, and the
+   first three bytes of the peer's next PDU are in the buffer (an incomplete header): the state is quiet, in Sta6 *)
+Definition ex_rq : pdu :=
+  Assoc Pdu.KRq 0 1 0 [65] [66] [0;0;0;0;0;0;0;0]
+        [AppCtx 0 [49;46;50]; PcRq 1 0 0 0 0 {| sy_reserved := 0; sy_name := [49;46;50;46;51] |} [{| sy_reserved := 0; sy_name := [49;46;50] |}];
+         UserInfo 0 [MaxLen 0 4 16384]].
+Definition ex_ac : pdu :=
+  Assoc Pdu.KAc 0 1 0 [65] [66] [0;0;0;0;0;0;0;0]
+        [AppCtx 0 [49;46;50]; PcAc 1 0 0 0 0 {| sy_reserved := 0; sy_name := [49;46;50] |}; UserInfo 0 [MaxLen 0 4 16384]].
+Definition ex_ops : list op := [Seg (encode ex_rq); Idle; User (UP ex_ac); Idle; Seg [4; 0; 0]; Idle].
+
+Example quiet_in_sta6 :
+  let s := run_script (mkdenv [] [] [1] []) false 65536 ex_ops in
+  quiet_all s = true /\ c_st (ctl s) = 6 /\ raw s = [4; 0; 0] /\ length (wire s) = 1%nat /\ length (given s) = 1%nat
+  /\ forallb legal_op ex_ops = true.
+Proof. vm_compute. repeat split. Qed.
